@@ -1078,6 +1078,10 @@ func c09(c *core.Ctx) {
 	c.Run("pending-index", func() { c08PendingIndex(c) })
 
 	// -----------------------------------------------------------------------------------------
+	c.Clause("C09.8", "what the asynchronous writer persists can be read back: BitCask.Put indexes a record at the cursor as it is after checkAndFlush (which may have rolled over to a new data file), data before index before cursor (the rules of C08.2 on BitCask.Put, evaluated here as well)")
+	c.Run("BitCask.Put", func() { c08BitCaskPut(c, newOrder(c)) })
+
+	// -----------------------------------------------------------------------------------------
 	c.Clause("C09.6", "the mutable account the manager works on never aliases a value stored in a view: AccountTrieDB.Get hands out copies only, or NewAccount copies what it is given")
 	c.Run("copy-at-the-boundary", func() {
 		adCopy := c.Method("chain/types.AccountData", "Copy")
@@ -1167,6 +1171,7 @@ func c09(c *core.Ctx) {
 				newCopies = true
 			}
 		}
+		c09CopyDeep(c)
 		c.Check("manager-account-never-aliases-a-view", "value-flow", getCopies || newCopies, get.Pos(),
 			"AccountTrieDB.Get returns copies only (%v) or NewAccount copies its data argument (%v): with neither, executing a block writes into the value cached in the parent's view, which every sibling shares", getCopies, newCopies)
 		c.Note("AccountTrieDB.Get returns copies only: %v; NewAccount copies: %v", getCopies, newCopies)
@@ -1246,4 +1251,38 @@ func reachFromCut(start *ssa.BasicBlock, avoid map[*ssa.BasicBlock]bool, cut *co
 		}
 	}
 	return seen
+}
+
+// c09CopyDeep: AccountData.Copy gives the copy its own counters, profile and version records. Evaluated under C09.6 and C11.6.
+func c09CopyDeep(c *core.Ctx) {
+	// premise of both halves: AccountData.Copy is deep for everything that is later written in place — the balance and vote counters
+	// (big.Int mutators), the candidate profile (SetCandidateState writes the map) and the version records (map updates at finalisation).
+	// Signers is shared on purpose: it is only ever replaced wholesale by a fresh list (C06.5).
+	cp := c.Fn("chain/types.AccountData.Copy")
+	family := []*ssa.Function{cp}
+	for _, ci := range core.AllCalls(cp) {
+		if h := core.StaticFn(ci); h != nil && h.Pkg == cp.Pkg && h.Blocks != nil && h != cp {
+			family = append(family, h)
+		}
+	}
+	for _, fspec := range [][2]string{{"chain/types.AccountData", "Balance"}, {"chain/types.Candidate", "Votes"}, {"chain/types.Candidate", "Profile"}, {"chain/types.AccountData", "NewestRecords"}} {
+		fv := c.FieldVar(fspec[0], fspec[1])
+		fresh := false
+		for _, fn := range family {
+			for _, stt := range storesToO8(fn, fv) {
+				switch x := stt.Val.(type) {
+				case *ssa.MakeMap, *ssa.MakeSlice, *ssa.Alloc:
+					fresh = true
+				case *ssa.Call:
+					// new(big.Int).Set(old): a call on a freshly allocated receiver
+					for _, a := range x.Call.Args {
+						if al, ok := a.(*ssa.Alloc); ok && al.Heap {
+							fresh = true
+						}
+					}
+				}
+			}
+		}
+		c.Check("AccountData.Copy:fresh/"+fspec[1], "value-flow", fresh, cp.Pos(), "AccountData.Copy (or a helper it calls) gives the copy its own %s: the copy handed to a block's execution must not share it with the value kept in the parent's view", fspec[1])
+	}
 }
